@@ -37,12 +37,12 @@ RULE = (
 EXHAUSTIVE_SUBSPACES = ["all 4 (fold, optimize) combinations per case", "exhaustive reference probabilities over the full discrete domain"]
 ASSUMPTIONS = ["chi-square two-stage test at 1e-9 per stage (false-alarm probability < 1e-15 per case)", "single-output, single-unit circuits (the query returns samples[:, 0, 0])"]
 FLOOR = {"sum:arity>1": 1, "cc:TorchCPTLayer": 1, "cc:fold>1:TorchCategoricalLayer": 1, "nonbinary": 1, "prod:kronecker": 1, "one-hot-attribution": 1,
-         "samples_checked": 20000, "chi2_tests": 20, "sparse-scope": 1, "in:binomial-probs": 1}
+         "samples_checked": 20000, "chi2_tests": 20, "sparse-scope": 1, "in:binomial-probs": 1, "resample-after-update": 1, "shared-layer": 1}
 
 
 def plan(tier, seed):
     n = 6 if tier == "quick" else 90
-    kinds = ["rg-cp", "rg-cpt", "rg-tucker", "gen-hadamard", "gen-kronecker", "onehot", "sparse", "gen-mixing"]
+    kinds = ["rg-cp", "rg-cpt", "rg-tucker", "gen-hadamard", "gen-kronecker", "onehot", "sparse", "gen-mixing", "gen-shared"]
     return [{"kind": kinds[k % len(kinds)], "k": k, "seed": seed, "nseeds": 3 if tier == "quick" else 12} for k in range(n * len(kinds) // 2)]
 
 
@@ -74,8 +74,9 @@ def build(case):
     prod = ("kronecker",) if kind == "gen-kronecker" else ("hadamard",)
     cfg = gen.GenCfg(nvars=rng.randint(2, 4), kinds=("cat", "binomial"), id_mode="sparse" if kind == "sparse" else "contiguous", monotonic=True,
                      weight_kinds=("softmax", "dirichlet"), cat_modes=("probs_softmax", "probs_raw", "logits_lsm"), prod_kinds=prod,
-                     structured=rng.random() < 0.5, multi_part_prob=0.4, max_reps=3 if kind == "gen-mixing" else 2, mixing_prob=0.9 if kind == "gen-mixing" else 0.0,
-                     out_units=1, outputs=1, share_prob=0.2, skip_sum_prob=0.0, leaf_sum_prob=0.3)
+                     structured=(rng.random() < 0.5) and kind != "gen-shared", multi_part_prob=0.7 if kind == "gen-shared" else 0.4, max_reps=3 if kind in ("gen-mixing", "gen-shared") else 2, mixing_prob=0.9 if kind == "gen-mixing" else 0.0,
+                     out_units=1, outputs=1, share_prob=0.8 if kind == "gen-shared" else 0.2, skip_sum_prob=0.0,
+                     leaf_sum_prob=0.0 if kind == "gen-shared" else 0.3, max_units=2 if kind == "gen-shared" else 3)
     sc, meta = gen.gen_circuit(rng, cfg)
     return rng, sc
 
@@ -161,7 +162,15 @@ def run_case(case) -> Result:
             continue
         q = oq.value
         key = {tuple(row[ids]): i for i, row in enumerate(pool)}
-        for s in range(case["nseeds"]):
+        for s in range(case["nseeds"] + 1):
+            if s == case["nseeds"]:
+                # last round: the same query and compiled circuit after an in-place parameter update
+                tie.revalue(comp, sc, np.random.default_rng(4242 + case["k"]), "posonly")
+                r, a = C.reference(sc, comp, pool)
+                probs = np.real(r[:, 0, 0])
+                if abs(probs.sum() - 1.0) > 1e-8 or np.any(probs < -1e-12) or expected_cols is not None:
+                    break
+                res.features.add("resample-after-update")
             torch.manual_seed(1000 * case["k"] + s)
             o = call(q, N1)
             if not o.ok:
